@@ -202,8 +202,11 @@ PROPS = {
     "stat": ("E2EStat.v", "LME2E.E2EStat"),
     # C17 (added in round 3, wave 3): the `core` record of coq/pyglue instantiated with the stripe / score / scan models
     "py": ("E2EPyCore.v", "LME2E.E2EPyCore"),
+    # C07 (added in round 3, wave 3 by group maxi): the padding clause of C07 composed with C01 -- from a striped
+    # sequence and a scoring matrix with a -inf wildcard column to the answers of every arm (E2EPadding.v)
+    "pad": ("E2EPadding.v", "LME2E.E2EPadding"),
 }
-ALL_KEYS = ["scan", "stat", "py"]
+ALL_KEYS = ["scan", "stat", "py", "pad"]
 
 
 def theorems(which=None):
